@@ -31,7 +31,7 @@ DIV_JOBS += [(op, 'const:' + how, d) for op in ('/', '%', '/=', '%=', 'elem/=', 
              for how in ('literal', 'folded', 'constvar', 'constglobal') for d in (0, 3)]
 STORAGES = ('literal', 'dynamic', 'gliteral', 'gdynamic', 'param', 'argv', 'const', 'alias')
 IDX_JOBS = [(acc, el, st, ix) for acc in ('read', 'write', 'aug') for el in ('int', 'byte', 'bool', 'string')
-            for st in STORAGES for ix in ('len-1', 'len', '-1', '0', 'max', 'min', 'len+1')
+            for st in STORAGES for ix in ('len-1', 'len', '-1', '0', 'max', 'min', 'len+1', 'nar:len-1', 'nar:len', 'nar:0')
             if not (acc != 'read' and (st == 'const' or el == 'string' and st in ('argv',)))
             and not (acc == 'aug' and el in ('bool', 'string'))
             and not (el in ('bool',) and st == 'argv')]
@@ -111,6 +111,10 @@ def elem_lit(el, i):
 
 
 def idx_value(ix, L, W):
+    """'nar:X': the index is written `(fz + 256) is byte` with fz = X + 256: a computed word value of 512 + X
+    narrowed to the byte X - the bounds check must see X, not the word"""
+    if ix.startswith('nar:'):
+        return idx_value(ix[4:], L, W)
     maxs = (1 << (8 * W - 1)) - 1
     return {'len-1': L - 1, 'len': L, '-1': -1, '0': 0, 'max': maxs, 'min': -maxs - 1, 'len+1': L + 1}[ix]
 
@@ -119,7 +123,7 @@ def idx_prog(acc, el, st, ix, W, L):
     """The array/string `s` of length L lives in storage class st; fz is the index."""
     glob, pre, funcs = [], [], []
     params = [('int', 'fz')]
-    argv = [str(idx_value(ix, L, W))]
+    argv = [str(idx_value(ix, L, W) + (256 if ix.startswith('nar:') else 0))]
     t_el = 'byte' if el == 'string' and False else el
     lits = tuple(elem_lit(el, i) for i in range(L))
     use_string_scalar = False
@@ -154,7 +158,7 @@ def idx_prog(acc, el, st, ix, W, L):
         elif st == 'argv':
             params.append((arr(el, el == 'string'), 's'))
             argv += [('w%d' % i if el == 'string' else str((i * 7 + 1) & 0xFF)) for i in range(L)]
-    item = idx('s', V('fz'))
+    item = idx('s', is_(bin_('+', V('fz'), I(256)), 'byte') if ix.startswith('nar:') else V('fz'))
     shown = write(is_(item, 'int')) if (el == 'byte' or use_string_scalar) else write(item)
     if acc == 'read':
         op = [shown]
